@@ -1010,6 +1010,93 @@ fn shared_phase_collect(
         .collect())
 }
 
+/// A `then()` series of borrowed returns: every call is lent *its own* value of the series, also when the calls
+/// come from several threads (each configured value is lent to exactly one call).
+pub fn run_c13_series(
+    n_threads: usize,
+    per_thread: usize,
+    strategy: Option<Strategy>,
+) -> (Result<(), String>, crate::sched::ExecInfo) {
+    toks::reset();
+    let total = n_threads * per_thread;
+    let vals: Vec<Val> = (0..total).map(|_| Val::new()).collect();
+    let ids: Vec<u32> = vals.iter().map(|v| v.id).collect();
+    // l_ref(x).returns(v0).once().then().returns(v1).once() ... built through the real builder
+    let mut it = vals.into_iter();
+    let first = it.next().unwrap();
+    let mut q = LMock::l_ref.each_call(matching!(_)).returns(first).once();
+    for v in it {
+        q = q.then().returns(v).once();
+    }
+    let u = Unimock::new(q).no_verify_in_drop();
+    let got: Vec<Mutex<Vec<(u32, bool, usize)>>> = (0..n_threads).map(|_| Mutex::new(vec![])).collect();
+    let barrier = std::sync::Barrier::new(n_threads);
+    let free = strategy.is_none();
+    let mut bodies: Vec<Box<dyn FnOnce() + Send + '_>> = vec![];
+    for tid in 0..n_threads {
+        let u = &u;
+        let slot = &got[tid];
+        let barrier = &barrier;
+        bodies.push(Box::new(move || {
+            if free {
+                barrier.wait();
+            }
+            let mut refs: Vec<&Val> = vec![];
+            for _ in 0..per_thread {
+                if let Ok(r) = guarded(|| u.l_ref(1)) {
+                    refs.push(r);
+                }
+            }
+            // re-validated at the end of the thread: still the same, intact values
+            *slot.lock().unwrap() = refs
+                .iter()
+                .map(|r| (r.id, r.intact(), *r as *const Val as usize))
+                .collect();
+        }));
+    }
+    let exec = match strategy {
+        Some(s) => run_controlled(bodies, s),
+        None => {
+            std::thread::scope(|scope| {
+                for b in bodies {
+                    scope.spawn(b);
+                }
+            });
+            Default::default()
+        }
+    };
+    let mut seen: Vec<u32> = vec![];
+    let mut addrs = HashSet::new();
+    for slot in &got {
+        for (id, intact, addr) in slot.lock().unwrap().iter() {
+            if !intact {
+                return (Err(format!("lent value {id} is damaged")), exec);
+            }
+            if !addrs.insert(*addr) {
+                return (
+                    Err(format!("two calls were lent the same stored value (id {id}): a call did not get its own value of the series")),
+                    exec,
+                );
+            }
+            seen.push(*id);
+        }
+    }
+    seen.sort();
+    let mut want = ids.clone();
+    want.sort();
+    if seen != want {
+        return (
+            Err(format!("values lent {seen:?}, the series configured {want:?} (each exactly once)")),
+            exec,
+        );
+    }
+    if ids.iter().any(|id| toks::drops(*id) != 0) {
+        return (Err("a value of the series was dropped while the mock is alive".into()), exec);
+    }
+    drop(u);
+    (Ok(()), exec)
+}
+
 /// A very long chain must be dropped without recursion.
 pub fn run_c13_bigchain(n: usize) -> Result<(), String> {
     toks::reset();
@@ -1253,6 +1340,62 @@ pub fn run_child(what: &str, args: &[String], acc: &mut Acc) -> bool {
             }
             if acc.samples.is_empty() {
                 acc.samples.push(format!("{max_threads} threads x {per_thread} lending operations drawn from {SHARED_OPS:?}"));
+            }
+            true
+        }
+        "c13-series" | "c13-series-stress" => {
+            let controlled = what == "c13-series";
+            if controlled {
+                install_hook();
+            }
+            for index in 0..cases {
+                let mut rng = Rng::new(mix3(seed ^ 0x5E13, worker, index));
+                let n_threads = if controlled { rng.range(2, 3) } else { rng.range(2, 8) };
+                let per = if controlled { rng.range(1, 2) } else { rng.range(1, 12) };
+                acc.cases += 1;
+                acc.case_hashes.insert(mix3(seed ^ 0x5E13, worker, index));
+                let execs = if controlled { 60 } else { 40 };
+                for e in 0..execs {
+                    let strategy = if controlled {
+                        Some(if e % 2 == 0 {
+                            Strategy::Random(Rng::new(rng.next_u64()))
+                        } else {
+                            pct_strategy(&mut rng, n_threads, 1 + e % 3, 6 * per * n_threads)
+                        })
+                    } else {
+                        None
+                    };
+                    let (r, exec) = run_c13_series(n_threads, per, strategy);
+                    acc.executions += 1;
+                    acc.add("series_calls", (n_threads * per) as u64);
+                    acc.schedules.insert(fnv(&exec.trace) ^ mix3(seed, worker, index));
+                    for (f, l, k) in &exec.sites {
+                        let short = f.rsplit("/src/").next().unwrap_or(f);
+                        acc.sites.insert(format!("{short}:{l}:{k}"));
+                    }
+                    if exec.deadlock {
+                        if acc.inconclusive.len() < 5 {
+                            acc.inconclusive.push(format!("c13-series case {worker}:{index}: scheduler deadlock/watchdog"));
+                        }
+                        continue;
+                    }
+                    if let Err(e) = r {
+                        acc.violations += 1;
+                        if acc.violations <= 5 {
+                            let d = Discrepancy {
+                                props: vec!["C13", "C10", "C02"],
+                                at: format!("{n_threads} threads x {per} calls on a then()-series of borrowed returns"),
+                                expected: "every call is lent its own value of the series; all intact, none dropped".into(),
+                                observed: e,
+                            };
+                            emit(what, seed, worker, index, &d, &format!("series case {worker}:{index}"), &sched_str(&exec.trace));
+                        }
+                        break;
+                    }
+                }
+            }
+            if acc.samples.is_empty() {
+                acc.samples.push("l_ref.each_call(_).returns(v0).once().then().returns(v1).once()... ; N threads call l_ref".into());
             }
             true
         }
